@@ -32,14 +32,14 @@ type wsReader struct{ n int }
 func (r *wsReader) HandleShipPayloadMessage(m []byte) { r.n++ }
 
 func (i *wsInfo) IsRemoteServiceForSKIPaired(string) bool { return i.paired }
-func (i *wsInfo) IsAutoAcceptEnabled() bool              { return false }
+func (i *wsInfo) IsAutoAcceptEnabled() bool               { return false }
 func (i *wsInfo) HandleConnectionClosed(api.ShipConnectionInterface, bool) {
 	i.mu.Lock()
 	i.closed++
 	i.mu.Unlock()
 }
-func (i *wsInfo) ReportServiceShipID(string, string)      {}
-func (i *wsInfo) AllowWaitingForTrust(string) bool        { return true }
+func (i *wsInfo) ReportServiceShipID(string, string) {}
+func (i *wsInfo) AllowWaitingForTrust(string) bool   { return true }
 func (i *wsInfo) HandleShipHandshakeStateUpdate(string, model.ShipState) {
 	i.mu.Lock()
 	i.updates++
@@ -98,10 +98,47 @@ func H_C08_WsShip() {
 // close with a reason (garbage / out-of-phase / close announce) while the transport refuses further writes.
 func H_C08_WsShip_Native() {
 	frames := [][]byte{
-		{0x00, 0x01},       // bad init message
-		{0x07, 'x', 'y'},   // unknown message type
+		{0x00, 0x01},     // bad init message
+		{0x07, 'x', 'y'}, // unknown message type
 		[]byte("\x01{\"connectionClose\":[{\"phase\":\"announce\"}]}"), // out-of-phase close announce
 		[]byte("\x01{\"connectionHello\":[{\"phase\":\"nonsense\"}]}"),
+	}
+	// frames of the engine's counterexample (concretised to real bytes by the check), if the tape carries any: the peer sends
+	// exactly these, then goes away; a receive loop that is still alive notices the lost transport and reports the end
+	var taped [][]byte
+	for len(taped) < 4 {
+		b := zzvrt.Bytes("msg")
+		if len(b) == 0 {
+			break
+		}
+		taped = append(taped, b)
+	}
+	if len(taped) > 0 {
+		for it := 0; it < 4; it++ {
+			q, info, err := newNativeShipPair(it%2 == 0, 0)
+			if err != nil {
+				continue
+			}
+			if it >= 2 {
+				_ = q.peer.WriteMessage(websocket.BinaryMessage, []byte{0x00, 0x00}) // the init message first
+			}
+			for _, m := range taped {
+				_ = q.peer.WriteMessage(websocket.BinaryMessage, m)
+			}
+			time.Sleep(150 * time.Millisecond)
+			q.peer.Close()
+			deadline := time.Now().Add(3 * time.Second)
+			for time.Now().Before(deadline) && info.closedCount() < 1 {
+				time.Sleep(20 * time.Millisecond)
+			}
+			if info.closedCount() < 1 {
+				zzvrt.Fail("C08.receive-loop-stuck-on-peer-frames")
+			}
+			q.srv.Close()
+			if len(zzvrt.Failures) > 0 {
+				return
+			}
+		}
 	}
 	for it := 0; it < 32; it++ {
 		// the transport refuses the k-th and later frames written by the library (k = 1..4: init, hello, abort / close announce / confirm, close frame)
@@ -147,7 +184,9 @@ func newNativeShipPair(server bool, failAt int) (*nShipPair, *wsInfo, error) {
 	if err != nil {
 		return nil, nil, err
 	}
-	atomic.StoreInt32(&p.wc.failWriteAt, atomic.LoadInt32(&p.wc.writes)+int32(failAt))
+	if failAt > 0 {
+		atomic.StoreInt32(&p.wc.failWriteAt, atomic.LoadInt32(&p.wc.writes)+int32(failAt))
+	}
 	info := &wsInfo{paired: true, reader: &wsReader{}}
 	role := ship.ShipRoleClient
 	if server {
